@@ -1,0 +1,21 @@
+//go:build verif
+// +build verif
+
+package crd
+
+import (
+	extensionlister "k8s.io/apiextensions-apiserver/pkg/client/listers/apiextensions/v1"
+	"k8s.io/apimachinery/pkg/runtime/schema"
+	"k8s.io/client-go/dynamic/dynamicinformer"
+)
+
+// VerifNewCrdCache builds the real cache on an informer factory supplied by the simulator (NewCrdCache constructs
+// client-go's dynamic informer factory itself, which cannot run on the simulated API server).
+func VerifNewCrdCache(factory dynamicinformer.DynamicSharedInformerFactory,
+	extensionLister extensionlister.CustomResourceDefinitionLister) CrdCache {
+	return &crdCache{
+		dynamicFactory:   factory,
+		startedInformers: map[schema.GroupVersionResource]bool{},
+		extensionLister:  extensionLister,
+	}
+}
